@@ -7,6 +7,11 @@ COMMON_STUB = ["upstream memory source (SimHeap: sim_lifo_allocator / sim_block_
                "operator new(nothrow), mmap, mprotect, munmap, madvise)", "recording handlers "
                "(leak, invalid pointer, buffer overflow, out_of_memory, bad_allocation_size)"]
 
+PROPS_COMP_RULE = ("each run = one plan drawn from a 63-bit seed (composition / helper, leaf limits and budgets, "
+                   "thresholds, request shapes, leaf or constructor failures attached to operations), executed "
+                   "against the real templates over logging leaf allocators; distinct = distinct run hash (op "
+                   "outcomes, returned offsets, leaf ledger); non-trivial = at least two creation/operation cases")
+
 HIST_RULE = ("each run = one plan drawn from a 63-bit seed (SUT type and parameters, block source, placement "
              "policy of upstream blocks and of the allocator object, interface family mix, op mix, fault "
              "plan), executed against the real library; distinct = distinct run hash (sequence of op outcomes, "
@@ -125,6 +130,8 @@ PROPS = {
         design="3/C09"),
     "C20": dict(
         engine="compsim", profile="C20", builds=["dbg", "rwdi"], level="fault_enumeration",
+        parts=[dict(engine="compsim", profile="C20", builds=["dbg", "rwdi"], weight=2.0),
+               dict(engine="compsim", profile="C20J", builds=["dbg", "rwdi"], weight=1.0)],
         quick_s=35, thorough_s=600, rule='each run = one plan drawn from a 63-bit seed (composition / helper, leaf limits and budgets, thresholds, request shapes, leaf or constructor failures attached to operations), executed against the real adapter templates over logging leaf allocators; distinct = distinct run hash (op outcomes, returned offsets, leaf ledger); non-trivial = at least one release through the composition and (a request served by a non-first leaf or at least 4 operations)',
         stubs=["instrumented element types throwing from the k-th construction", "logging leaf RawAllocators "
                "over SimHeap (real memory_pool and memory_stack are also used as allocators)"],
@@ -143,6 +150,24 @@ PROPS = {
              "owner. joint_ptr/joint_array forms are covered by the C11 engine part of this check.",
         note="Length 0 arrays are not requested (array count must be valid, i.e. non-zero).",
         design="3/C20"),
+    "C11": dict(
+        engine="compsim", profile="C11", builds=["dbg", "rwdi"], level="exploration",
+        quick_s=35, thorough_s=600, rule=PROPS_COMP_RULE,
+        stubs=["logging leaf RawAllocator under joint_ptr (exact-size upstream blocks, ASan-poisoned "
+               "surroundings)", "instrumented element types"],
+        technique="deterministic simulation: seeded creation / clone / move / swap / reset histories of joint "
+                  "objects with additional sizes around the exact fit, constructor failures injected; layout, "
+                  "ledger and independence oracles",
+        text="Joint types with three joint_arrays of mixed element sizes/alignments (all four constructor "
+             "forms, copy- and move-with-joint) and with vector/string on joint_allocator are created with "
+             "additional sizes from far too small through exact fit to generous; the leaf must see exactly one "
+             "node request of sizeof(T)+additional at alignof(T), member storage must lie disjoint and aligned "
+             "inside the bytes after the object, too-small sizes must throw out_of_fixed_memory without "
+             "overrunning (ASan) or leaking, destruction must destroy every element once and release the block "
+             "in one call with the original size and alignment, clones must be independent.",
+        note="Exact need is computed by the harness from sizeof/alignof of the member element types (the leaf "
+             "returns max_alignment aligned memory).",
+        design="3/C11"),
     "C12": dict(
         engine="histsim", profile="C12", builds=["dbg", "rwdi", "rel"], level="exploration",
         quick_s=50, thorough_s=600,
